@@ -234,13 +234,13 @@ def old_rules(run, model, rule="C08.old"):
 
 
 def run(run, model):
-    gates.c08_place(run, model)
-    gates.c01_read_live(run, model, "C08.read-live", ("SNAP",))
-    capture_helpers(run, model)
-    define_tables(run, model)
-    old_rules(run, model)
-    common.append_rules(run, model, "C08.append", which=("snap",))
-    meta.snapshot_provenance(run, model, "C08.inherit")
+    run.do(gates.c08_place, model)
+    run.do(gates.c01_read_live, model, "C08.read-live", ("SNAP",))
+    run.do(capture_helpers, model)
+    run.do(define_tables, model)
+    run.do(old_rules, model)
+    run.do(common.append_rules, model, "C08.append", which=("snap",))
+    run.do(meta.snapshot_provenance, model, "C08.inherit")
     run.minimum("C08.place", 2)
     run.minimum("C08.once", 4)
     run.minimum("C08.define", 10)
